@@ -10,9 +10,10 @@ PROOF_FILE = "C08"
 LEVEL = "proof"
 RULE = ("generated PyPI universes (5-10 packages, 1-5 versions incl. a/b/rc/dev/post releases, specifiers of every "
         "operator and comma lists, markers over python_version/sys_platform/os_name/extra, extras requested by root "
-        "and inner requirements, cycles through the root, conflict templates) x every version as root; a case is "
-        "non-trivial when the graph has at least 3 nodes and either a false marker was dropped or the resolver asked "
-        "for the requirements of a version that is not in the final graph (a rejected or backtracked candidate)")
+        "and inner requirements, cycles through the root, conflict templates forcing backtracking, templates of the "
+        "three known defect shapes) x every version as root; a case is non-trivial when the graph has at least 3 nodes "
+        "and a false marker was dropped, or the model backtracked, or the resolver asked for the requirements of a "
+        "version that is not in the final graph (a rejected or abandoned candidate)")
 TRUSTED = [
     "Coq 8.16.1 kernel; vm_compute for the refuted witnesses and the examples",
     "translator harness/go/cmd/gotables (maxRounds, attribute keys, VersionType numbers, delayed name regenerated each run)",
@@ -38,14 +39,17 @@ MANIFEST = dict(
     category="proof",
     text=("Executable Gallina model of the resolvelib-style PyPI resolver (provider, criteria, state stack, backtracking, "
           "maxRounds, buildGraph, hasRouteToRoot), parametric in the client and in marker/semver oracles. Theorems for all "
-          "clients: state invariant preserved by pinning and backtracking; one version per package; root never replaced; "
-          "every edge stems from a requirement whose marker was true; every edge target satisfies its requirement under "
-          "the provider's prerelease rule; every node reachable from the root. Edge completeness is refuted by two "
-          "witnesses (late extras, hasRouteToRoot negative memo) and proved in the restricted form. Model tied to the "
-          "code by differential execution on recorded client tables; clauses also evaluated directly on Go's graphs."),
+          "clients, roots and round limits: state invariant preserved by pinning and backtracking and satisfied by the "
+          "returned state; buildGraph total on it; one version per package; root never replaced (in the graph and in the "
+          "mapping); every edge target satisfies its requirement under the provider's prerelease rule; every node reachable "
+          "from the root. Edge completeness and the false-marker clause hold only in restricted form (proved) and are "
+          "refuted at full strength by three witnesses on real LocalClient answers (open known findings F-C08-1..3: "
+          "hasRouteToRoot negative memo, extras requested after the pin, extras requested by abandoned versions). Model tied "
+          "to the code by differential execution on recorded client tables; all clauses also evaluated directly on Go's graphs."),
     note=("Trusted: Coq kernel (+vm_compute), gotables, extraction and driver.ml, Go harness, python generator/oracle, "
-          "marker and semver functions as oracles. Hand-written model validated by execution, not verified against Go. "
-          "Immutable-list assumption for shared criterion slices; caches omitted."),
+          "marker and semver functions as oracles (C16, C03). Hand-written model validated by execution, not verified "
+          "against Go. Immutable-list assumption for shared criterion slices; caches omitted; client_wf hypothesis checked "
+          "on every recorded table."),
     technique="Rocq proof over a hand-written parametric model + differential correspondence on recorded client tables + direct oracle",
     design="8 C08")
 
